@@ -244,7 +244,22 @@ fn gen_pieces(rng: &mut Rng, n: usize) -> String {
     s
 }
 
+const BENIGN: [&str; 14] = [
+    "/", "/graphql", "/ws", "https://api.example.org:8443/v1/graphql?x=1;y=2", "Authorization", "Bearer [token]", "token",
+    "X-Trace-Id", "My IDE (staging)", "caf\u{e9} \u{65e5}\u{672c} \u{1F600}", "a=b, c=d; e", "ws://h/sub#frag", "{id}", "",
+];
+
 fn gen_case(rng: &mut Rng, _i: usize, _o: &Opts, dist: &mut Dist) -> Sexp {
+    // a third of the configurations contain nothing that needs escaping in either context
+    let benign = rng.chance(1, 3);
+    if benign {
+        dist.hit("cfg_benign");
+    } else {
+        dist.hit("cfg_hostile");
+    }
+    let gen_string = |rng: &mut Rng, dist: &mut Dist| -> String {
+        if benign { rng.pick(&BENIGN).to_string() } else { gen_string(rng, dist) }
+    };
     let opt = |rng: &mut Rng, dist: &mut Dist, what: &str| -> Sexp {
         if rng.chance(1, 2) {
             dist.hit(&format!("{what}_set"));
